@@ -387,7 +387,6 @@ def jobs(tier, seed):
         add('affine', layout=E, kind='mul', mode='std')
         add('affine', layout=A, kind='mul', mode='kw')
         add('affine', layout=E, kind='add', mode='std')
-        add('affine', layout=T, kind='mul', mode='texp')
         add('positive', layout={'e|r1': list(range(1, 13))}, mode='std')
     return J
 
